@@ -10,7 +10,7 @@ sys.path.insert(0, '.')
 from vcheck import common
 for prof in ('debug', 'release'):
     common.build_replay(prof)
-for kind in ('shm', 'dlib'):
+for kind in ('shm', 'dlib', 'dbin'):
     common.dump_mir(kind)
 print('setup ok')
 PY
